@@ -164,6 +164,54 @@ pub fn means(cfg: &mut Cfg, rep: &mut Report) {
             }
         }
     }
+    // C18 (bounded): per-axis weighted variance / standard deviation equal the whole-array routine per lane, and
+    // central_moments(p)[k] equals central_moment(k), bit for bit (same computation on the same lane)
+    let fshapes: Vec<Vec<usize>> = if cfg.thorough { vec![vec![3], vec![2, 3], vec![3, 4], vec![2, 2, 3]] } else { vec![vec![3], vec![2, 3], vec![2, 2, 2]] };
+    for shape in fshapes {
+        for rep_i in 0..(if cfg.thorough { 12 } else { 4 }) {
+            let size: usize = shape.iter().product();
+            let data: Vec<f64> = (0..size).map(|_| [0.5, -1.25, 3.0, 7.75, 100.125, 2.0][rng.below(6)]).collect();
+            let d = ArrayD::from_shape_vec(IxDyn(&shape), data.clone()).unwrap();
+            for ax in 0..shape.len() {
+                let w: Array1<f64> = (0..shape[ax]).map(|_| [0.5, 1.0, 2.0, 0.25][rng.below(4)]).collect();
+                for ddof in [0.0, 0.5, 1.0] {
+                    let case = format!("means;var_axis;shape={:?};data#{}={:?};axis={};weights={:?};ddof={}", shape, rep_i, data, ax, w.to_vec(), ddof);
+                    if !rep.want(cfg, &case) { continue; }
+                    let r = guarded(|| {
+                        let mut bad: Vec<String> = vec![];
+                        let va = d.weighted_var_axis(Axis(ax), &w, ddof);
+                        let sa = d.weighted_std_axis(Axis(ax), &w, ddof);
+                        match (va, sa) {
+                            (Ok(va), Ok(sa)) => {
+                                for (li, lane) in d.lanes(Axis(ax)).into_iter().enumerate() {
+                                    let lo = lane.to_owned();
+                                    let (lv, ls) = (lo.weighted_var(&w, ddof), lo.weighted_std(&w, ddof));
+                                    let (gv, gs) = (*va.iter().nth(li).unwrap(), *sa.iter().nth(li).unwrap());
+                                    if lv.as_ref().ok().map(|x| x.to_bits()) != Some(gv.to_bits()) { bad.push(format!("weighted_var_axis lane {}: {} vs whole-array routine {:?}", li, gv, lv)); }
+                                    if ls.as_ref().ok().map(|x| x.to_bits()) != Some(gs.to_bits()) { bad.push(format!("weighted_std_axis lane {}: {} vs whole-array routine {:?}", li, gs, ls)); }
+                                }
+                            }
+                            _ => bad.push("weighted_var_axis / weighted_std_axis returned an error".into()),
+                        }
+                        bad
+                    });
+                    match r { Err(m) => rep.fail_p(cfg, &case, "C18", "per-axis variance panicked", json!({"panic": m})), Ok(bad) => if !bad.is_empty() { rep.fail_p(cfg, &case, "C18", &bad[0].clone(), json!({"problems": bad})); } }
+                    rep.eval(&case, true);
+                }
+            }
+            let case = format!("means;moments;shape={:?};data#{}={:?}", shape, rep_i, data);
+            if rep.want(cfg, &case) {
+                for p in 0..=10u16 {
+                    let bulk = d.central_moments(p).unwrap();
+                    for k in 0..=p {
+                        let single = d.central_moment(k).unwrap();
+                        if bulk[k as usize].to_bits() != single.to_bits() { rep.fail_p(cfg, &case, "C18", "central_moments(p)[k] differs from central_moment(k)", json!({"p": p, "k": k, "bulk": bulk[k as usize], "single": single})); }
+                    }
+                }
+                rep.eval(&case, true);
+            }
+        }
+    }
     // harmonic / geometric mean against their definitions (float: tolerance 1e-12 relative - accuracy itself is not decided here)
     for v in [vec![1.0f64, 2.0, 4.0], vec![0.5, 0.25], vec![3.0], vec![1e-3, 1e3, 7.0, 2.0]] {
         let a = Array1::from(v.clone());
